@@ -10,14 +10,14 @@ compact; sync and async.
 
 Model correspondence (proof level): the ownership-instrumented Coq model of the decode templates
 (fam/gen/coq/Own.v, theorems in Properties/C19.v) is run, through extraction (runner op `own`), on every case
-whose decoder is an instance of the plain templates (every async case; sync cases of the builds without
-unknown-field retention) and predicts the outcome and the list of values that are never dropped.  The prediction
+(own_decode for the plain templates: every async case and the sync cases of builds without unknown-field retention;
+own_decode_keep for the sync templates with retention) and predicts the outcome and the list of values that are
+never dropped.  The prediction
 is compared with the measurement in BOTH directions:
   measured leak, model predicts none       -> a real leak outside the modelled site: VIOLATION with the input
   measured leak, model predicts one        -> finding F-19a (class list-decode-leak): KNOWN-FINDING
   no leak measured, model predicts values holding heap / input references -> correspondence broken
-  outcome (ok / err / panic) differs       -> correspondence broken
-Sync cases of keep builds (template with retention, GenKeep.v) are judged by the type-level class as before."""
+  outcome (ok / err / panic) differs       -> correspondence broken"""
 import os, re
 from .. import core, gengen, genref, genrun, gencheck
 from ..gencheck import have_property_file, run_check
@@ -141,8 +141,9 @@ def inline_cap_check():
 
 
 def plain_template(case):
-    """is the decoder of this case an instance of the plain templates (the ones Own.v models)?"""
-    return case['mode'] != 'sync' or 'keep' not in case['cfg']
+    """is the decoder of this case modelled by Own.v?  (own_decode: the plain templates, sync and async;
+    own_decode_keep: the sync templates with retention of keep builds -- the runner picks by cfg and mode)"""
+    return True
 
 
 def evaluate(gb, case, out):
@@ -190,7 +191,12 @@ def judge(gb, case, out, pred):
         return [(what, cls)], None, 'class-only'
     mkind, mleak, mheap = pm.group(1), int(pm.group(2)), int(pm.group(3))
     if kind in ('panic', 'hang'):
-        # async capacity-overflow panics (F-09e) are not modelled; sync panics were reported by `evaluate`
+        # sync panics were reported by `evaluate` (F-13a class or VIOLATION); the model must predict them too.
+        # async capacity-overflow panics (F-09e) are an allocation effect the model's outcome type does not carry
+        if kind == 'panic' and case['mode'] == 'sync':
+            if mkind != 'panic':
+                return [], 'outcome: implementation panics, model %s' % pred[:40], 'outcome-mismatch'
+            return [], None, 'panic-predicted'
         return [], None, 'not-compared'
     if kind != mkind:
         return [], 'outcome: implementation %s, model %s' % (kind, pred[:40]), 'outcome-mismatch'
